@@ -1001,6 +1001,9 @@ func (c16) Run(c core.Case) core.Outcome {
 		}
 		if e.Direct {
 			kind = "compound:" + e.Kind
+			if e.Kind == "drop-reference+add-reference" {
+				kind = "retarget-reference" // the two edits at once are exactly the single retarget edit (recorded finding)
+			}
 		}
 		tail := "|" + firstWord(d)
 		if strings.Contains(kind, "retarget-reference") {
